@@ -65,6 +65,7 @@ type c14Scenario struct {
 	ServeNeeds []string `json:"serve_needs,omitempty"`
 	Discovery  bool     `json:"discovery_is_choice_point,omitempty"`
 	Profile    bool     `json:"id_token_without_email,omitempty"`
+	ProfileOpt bool     `json:"id_token_without_groups_and_preferred_username,omitempty"`
 	CustomAud  bool     `json:"custom_audience_claim,omitempty"`
 	Rotated    bool     `json:"refresh_signed_with_new_key,omitempty"`
 	BigLogin   bool     `json:"login_id_token_padded,omitempty"`
@@ -72,7 +73,7 @@ type c14Scenario struct {
 }
 
 func c14Scenarios() []*c14Scenario {
-	oidc := []string{"--email-domain=*", "--cookie-secure=false", "--code-challenge-method=S256", "--insecure-oidc-skip-nonce=false"}
+	oidc := []string{"--email-domain=*", "--cookie-secure=false", "--code-challenge-method=S256", "--insecure-oidc-skip-nonce=false", "--pass-access-token=true"}
 	kc := []string{
 		"--provider=keycloak", "--client-id=" + world.ClientID, "--client-secret=" + world.ClientSecret,
 		"--cookie-secret=" + cookieSecret32, "--http-address=-",
@@ -84,6 +85,9 @@ func c14Scenarios() []*c14Scenario {
 	return []*c14Scenario{
 		{Name: "login", Flow: "login", OIDC: true, Flags: oidc, Needs: []string{"discovery", "token", "jwks"}, Discovery: true},
 		{Name: "login-profile", Flow: "login", OIDC: true, Flags: oidc, Needs: []string{"token", "jwks"}, Profile: true},
+		// the ID token carries the e-mail but not groups / preferred_username: the profile endpoint is
+		// consulted for claims a session could do without
+		{Name: "login-profile-optional-claims", Flow: "login", OIDC: true, Flags: oidc, Needs: []string{"token", "jwks"}, ProfileOpt: true},
 		{Name: "login-custom-aud", Flow: "login", OIDC: true, Flags: with(oidc, "--oidc-audience-claim=azp", "--oidc-extra-audience="+c14ExtraAud),
 			Needs: []string{"token", "jwks"}, CustomAud: true},
 		{Name: "bearer", Flow: "bearer", OIDC: true, Flags: with(oidc, "--skip-jwt-bearer-tokens=true"), Needs: []string{"jwks"}, ServeNeeds: []string{"jwks"}},
@@ -114,7 +118,7 @@ const (
 	c14Benign    = 2 // a well-formed answer (deviation from the default, not a fault)
 )
 
-var c14Common = []string{"500", "400-oauth-error", "reset", "hang", "200-empty", "truncated-json", "text-plain", "oversized-8MiB"}
+var c14Common = []string{"500", "400-oauth-error", "reset", "hang", "200-empty", "truncated-json", "text-plain", "oversized-8MiB", "401-empty-body", "502-empty-body", "503-whitespace-body"}
 
 var c14ClaimFaults = map[string]map[string]any{
 	"claims:aud-number":            {"aud": 42},
@@ -164,6 +168,17 @@ func c14Alphabet(sc *c14Scenario, endpoint, grant string) []string {
 }
 
 func c14Class(sc *c14Scenario, endpoint, grant, kind string) int {
+	if sc.ProfileOpt && endpoint == "userinfo" {
+		switch kind {
+		case "userinfo-no-email":
+			// the e-mail is in the ID token here; a profile answer without it is a well-formed answer
+			return c14Benign
+		case "userinfo-json-array":
+			// well-formed JSON that simply holds no claim: the session is built from the verified
+			// ID token alone; whether the login has to fail is not pinned down by the statement
+			return c14Ambiguous
+		}
+	}
 	switch kind {
 	case "bigger-tokens":
 		return c14Benign
@@ -192,7 +207,7 @@ func c14Class(sc *c14Scenario, endpoint, grant, kind string) int {
 
 func c14Family(kind string) string {
 	switch kind {
-	case "500", "400-oauth-error", "401-invalid-token":
+	case "500", "400-oauth-error", "401-invalid-token", "401-empty-body", "502-empty-body", "503-whitespace-body":
 		return "http-error"
 	case "reset", "hang":
 		return "transport-failure"
@@ -298,6 +313,7 @@ type c14Step struct {
 	Name      string   `json:"step"`
 	Status    int      `json:"status"`
 	Served    bool     `json:"served_by_upstream"`
+	UpAT      string   `json:"access_token_seen_by_upstream,omitempty"`
 	Before    string   `json:"-"`
 	After     string   `json:"-"`
 	Change    string   `json:"session"` // none | unchanged | created | changed | gone
@@ -455,6 +471,22 @@ func (e *c14Exec) respond(kind, endpoint string) func(req *http.Request, healthy
 		}
 	}
 	switch kind {
+	case "401-empty-body":
+		return func(req *http.Request, _ func() *http.Response) (*http.Response, error) {
+			r, err := raw(req, 401, "text/plain", "")
+			if r != nil {
+				r.Header.Set("WWW-Authenticate", `Bearer error="invalid_token"`)
+			}
+			return r, err
+		}
+	case "502-empty-body":
+		return func(req *http.Request, _ func() *http.Response) (*http.Response, error) {
+			return raw(req, 502, "text/html", "")
+		}
+	case "503-whitespace-body":
+		return func(req *http.Request, _ func() *http.Response) (*http.Response, error) {
+			return raw(req, 503, "text/plain", " \n")
+		}
 	case "500":
 		return func(req *http.Request, _ func() *http.Response) (*http.Response, error) {
 			return raw(req, 500, "application/json", `{"error":"server_error"}`)
@@ -589,6 +621,10 @@ func (e *c14Exec) tokenSpec(_ *world.AuthRequest, _ *world.User, refresh bool) *
 	if e.sc.Profile {
 		spec.Claims["email"] = nil // the e-mail has to come from the profile endpoint
 	}
+	if e.sc.ProfileOpt {
+		spec.Claims["groups"] = nil
+		spec.Claims["preferred_username"] = nil
+	}
 	if e.rotated && refresh {
 		spec.Signer = "unknown-kid"
 	}
@@ -687,7 +723,11 @@ func (e *c14Exec) serve(b *Browser, step, target string, hdr ...[2]string) *c14S
 	}
 	cancel()
 	e.cancel, e.release = nil, nil
-	st.Served = len(e.env.up.Take()) > 0
+	ups := e.env.up.Take()
+	st.Served = len(ups) > 0
+	if st.Served {
+		st.UpAT = ups[0].Header.Get("X-Forwarded-Access-Token")
+	}
 	st.Status = resp.Status
 	st.loc = resp.Location()
 	if resp.Panic != nil {
@@ -1006,6 +1046,30 @@ func c14Run(env *c14Env, sc *c14Scenario, x *explore.Exec) *c14Result {
 			res.Outcome = "old-session-kept-and-served"
 		default:
 			res.Outcome = "old-session-kept-request-not-served"
+		}
+	}
+
+	// ---- a refresh answer that was rejected must not leak into the request it was fetched for:
+	// "creates or extends no session from it" also holds for the in-memory session the request is
+	// served with (the upstream must see the tokens the session had before)
+	if sc.Flow == "refresh" && len(flow) > 0 && flow[0].Served && flow[0].UpAT != "" && flow[0].Change == "unchanged" {
+		// (Change == "unchanged": the proxy itself did not adopt the answer — a retry that succeeded
+		// after a failed first attempt changes the stored session and is not this case)
+		decisiveToken := false
+		for _, f := range e.delivered {
+			if f.Endpoint == "token" && f.Class == c14Decisive {
+				decisiveToken = true
+			}
+		}
+		if i := strings.Index(flow[0].Before, "access="); decisiveToken && i >= 0 {
+			before := flow[0].Before[i+len("access="):]
+			if j := strings.IndexByte(before, ' '); j >= 0 {
+				before = before[:j]
+			}
+			if before != "" && flow[0].UpAT != before {
+				e.violate("C14/refresh/request-served-with-tokens-of-a-rejected-answer", "%s: the refresh grant was answered %v (rejected), the request was still served, and the upstream saw access token %q instead of the session's %q",
+					sc.Name, e.delivered, clip(flow[0].UpAT), clip(before))
+			}
 		}
 	}
 
